@@ -130,6 +130,7 @@ def run(prop, tier, replay=None):
     coverage = dict(
         states=mc["distinct"] + stats["distinct"], transitions=mc["generated"] + stats["generated"],
         model_states=mc["distinct"], model_transitions=mc["generated"], trace_states=stats["distinct"],
+        spec_expressions_not_evaluated_on_traces=sorted(stats.get("uncovered") or []),
         traces_validated_against_impl=acc, evaluations=total, distinct_nontrivial=len(distinct),
         rule="scripts with a first run at start-up or at least two change bursts; distinct by (argv, child behaviours, change times)",
         exhaustive=False, samples=samples,
